@@ -105,6 +105,11 @@ def _link(a, op, b, var):
 
 # --------------------------------------------------------------------------- taint
 
+def eval_neg_test(t):
+    """the test is `<something> < 0` (the canonical spelling of `0 > x` as well)"""
+    return isinstance(t, ast.Compare) and len(t.ops) == 1 and isinstance(t.ops[0], ast.Lt) and isinstance(t.comparators[0], ast.Constant) and t.comparators[0].value == 0 and not isinstance(t.comparators[0].value, bool)
+
+
 def wire_int_methods(a):
     """BinaryDecoder methods whose whole effect is one varint read that is returned"""
     dec = a.p.cls("io.binary_decoder:BinaryDecoder")
@@ -256,6 +261,43 @@ def run(ctx):
     if n_sinks < 1 or n_sources < 1:
         raise AnalysisError(f"C03.R3 anchors missing: {n_sources} index sources, {n_sinks} subscript sinks")
     ctx.extra["C03.R3"] = {"wire_int_methods": sorted(srcs), "index_sources": n_sources, "subscript_sinks": n_sinks}
+
+    # ---- R5 the byte size of a block decides nothing ------------------------------
+    ctx.rule("C03.R5", "the byte size that follows a negative block count is discarded or used only as an amount to skip: no test depends on it (items may take no bytes at all, so no relation between the size and the count holds for every valid encoding)", floor=1)
+    n_sizes = 0
+    seen_nodes = set()
+    for f in list(dec.methods.values()) + list(a.p.module("_read_py").all_funcs):
+        if id(f.node) in seen_nodes:
+            continue
+        seen_nodes.add(id(f.node))
+        is_source = is_source_in(f)
+        for n in walk_local(f.node):
+            if not (isinstance(n, ast.If) and eval_neg_test(n.test)):
+                continue
+            for st in n.body:
+                for c in ast.walk(st):
+                    if not (isinstance(c, ast.Call) and (is_source(c) or (f.cls is dec and isinstance(c.func, ast.Attribute) and norm(c.func) == "self.read_long"))):
+                        continue
+                    n_sizes += 1
+                    par = a.parent(f.mod, c)
+                    inst = f"{f.qualname}: block byte size {norm(c)}"
+                    if isinstance(par, ast.Expr):
+                        ctx.holds("C03.R5", inst + " is discarded", f.where(c))
+                        continue
+                    if isinstance(par, ast.Assign) and len(par.targets) == 1 and isinstance(par.targets[0], ast.Name):
+                        sv = par.targets[0].id
+                        tests = [t for t in walk_local(f.node) if isinstance(t, (ast.If, ast.While, ast.IfExp, ast.Assert)) and sv in names_in(t.test)]
+                        if tests:
+                            ctx.violation("C03.R5", inst + " decides nothing", f.where(tests[0]), f"{f.qualname}: `{norm(tests[0].test)}` depends on the block byte size `{sv}`", "a block of items that take no bytes (nulls, empty records) has byte size 0 whatever its count: a test on the size rejects or mis-reads a specification-valid encoding")
+                        else:
+                            ctx.holds("C03.R5", inst + f" (bound to {sv}) reaches no test", f.where(c))
+                        continue
+                    if isinstance(par, (ast.Compare, ast.BoolOp, ast.If, ast.While)):
+                        ctx.violation("C03.R5", inst + " decides nothing", f.where(c), f"{f.qualname}: {norm(par)[:100]}", "a test on the block byte size rejects or mis-reads a specification-valid encoding")
+                    else:
+                        ctx.holds("C03.R5", inst + " is an operand, not a test", f.where(c))
+    if n_sizes < 1:
+        raise AnalysisError("C03.R5: no read of a block byte size (a varint read under `count < 0`) found")
 
     # ---- R4 short read raises -----------------------------------------------
     ctx.rule("C03.R4", "each fo.read(n) in BinaryDecoder flows into a consumer that raises on a short result", floor=7)
